@@ -17,9 +17,10 @@ TraceLog == ndJsonDeserialize(IOEnv.TRACE)
 OutFile  == IOEnv.OUT
 KF(id)   == id \in DOMAIN IOEnv     \* a known finding is enabled by an environment variable
 
-VARIABLES st, l, rej, skip, cur, nexec, ndisc, known, lastRx
+VARIABLES st, l, rej, skip, cur, nexec, ndisc, known, lastRx, lastMid
 
-vars == <<st, l, rej, skip, cur, nexec, ndisc, known, lastRx>>
+vars == <<st, l, rej, skip, cur, nexec, ndisc, known, lastRx, lastMid>>
+\* lastMid: <<session, type>> -> message id of the last response of that type (ACK / CON) received on the session: all libcoap's duplicate filter remembers
 
 OK(s)        == [ok |-> TRUE,  st |-> s, why |-> "", kf |-> ""]
 Bad(s, why)  == [ok |-> FALSE, st |-> s, why |-> why, kf |-> ""]
@@ -106,7 +107,7 @@ OnResp(s, e) ==
           /\ \/ e.ty = ACK /\ e.mid \in s.seenAck[e.s] /\ lastRx.dup
              \/ e.ty = CON /\ lastRx.dup
           /\ Known(s, e.s, e.tok) /\ s.ex[<<e.s, e.tok>>].st = "resp"
-          /\ LaterConcluded(s, e.s, e.tok)
+          /\ lastRx.prev # e.mid                  \* another response of that type came in between: the one-deep memory was overwritten
   THEN Finding(s, "KF_C07_OLD_DUPLICATE")
   ELSE IF Known(s, e.s, e.tok) /\ ~Open(s, e.s, e.tok) THEN Bad7(s, "C07:delivered-again-after-conclusion")
   ELSE IF Known(s, e.s, e.tok) THEN Bad7(s, "C07:delivery-without-matching-response")
@@ -185,7 +186,7 @@ Step(s, e) ==
 (* ---- the trace automaton ------------------------------------------------ *)
 Init ==
   /\ st = Dummy /\ l = 1 /\ rej = << >> /\ skip = TRUE /\ cur = -1
-  /\ nexec = 0 /\ ndisc = 0 /\ known = {} /\ lastRx = [ty |-> -1, mid |-> -1, s |-> -1, dup |-> FALSE]
+  /\ nexec = 0 /\ ndisc = 0 /\ known = {} /\ lastRx = [ty |-> -1, mid |-> -1, s |-> -1, dup |-> FALSE, prev |-> -1] /\ lastMid = [x \in {} |-> 0]
 
 Consume ==
   /\ l <= Len(TraceLog)
@@ -193,9 +194,9 @@ Consume ==
      IF e.e = "Reset"
      THEN /\ st' = InitState(CfgOf(e), e.t)
           /\ skip' = FALSE /\ cur' = e.id /\ nexec' = nexec + 1
-          /\ UNCHANGED <<rej, ndisc, known, lastRx>>
+          /\ lastMid' = [x \in {} |-> 0] /\ UNCHANGED <<rej, ndisc, known, lastRx>>
      ELSE IF skip
-     THEN UNCHANGED <<st, rej, skip, cur, nexec, ndisc, known, lastRx>>
+     THEN UNCHANGED <<st, rej, skip, cur, nexec, ndisc, known, lastRx, lastMid>>
      ELSE LET r == Step(st, e) IN
           /\ st' = r.st
           /\ rej' = IF r.ok THEN rej ELSE Append(rej, [id |-> cur, line |-> l, why |-> r.why])
@@ -206,8 +207,12 @@ Consume ==
                         THEN [ty |-> e.ty, mid |-> e.mid, s |-> e.s,
                               dup |-> (e.s \in st.cfg.sess /\
                                        ((e.ty = CON /\ e.mid \in st.seenCon[e.s]) \/
-                                        (e.ty = ACK /\ e.mid \in st.seenAck[e.s])))]
+                                        (e.ty = ACK /\ e.mid \in st.seenAck[e.s]))),
+                              prev |-> IF <<e.s, e.ty>> \in DOMAIN lastMid THEN lastMid[<<e.s, e.ty>>] ELSE -1]
                         ELSE lastRx
+          /\ lastMid' = IF e.e = "Rx" /\ e.code >= 64 /\ e.ty \in {CON, ACK}
+                         THEN [x \in (DOMAIN lastMid) \cup {<<e.s, e.ty>>} |-> IF x = <<e.s, e.ty>> THEN e.mid ELSE lastMid[x]]
+                         ELSE lastMid
           /\ UNCHANGED <<cur, nexec>>
   /\ l' = l + 1
 
@@ -216,7 +221,7 @@ Finish ==
   /\ JsonSerialize(OutFile, [rejected |-> rej, executions |-> nexec, discarded |-> ndisc,
                              known |-> known, lines |-> Len(TraceLog)])
   /\ l' = l + 1
-  /\ UNCHANGED <<st, rej, skip, cur, nexec, ndisc, known, lastRx>>
+  /\ UNCHANGED <<st, rej, skip, cur, nexec, ndisc, known, lastRx, lastMid>>
 
 Next == Consume \/ Finish
 Spec == Init /\ [][Next]_vars
